@@ -100,7 +100,11 @@ static void run_case (const std::vector<uint32_t> &stream)
     }
     int st = 0;
     while (waitpid (pid, &st, 0) < 0 && errno == EINTR) {}
-    if (WIFSIGNALED (st)) {
+    if ((WIFSIGNALED (st) || (WIFEXITED (st) && WEXITSTATUS (st) != 0)) && !strncmp (R->stage, "@notmine:", 9)) {
+      /* the harness declared that a crash in this stage belongs to another property (e.g. the first compile of C17 is
+         C05's business): counted as excluded, not as a pass of anything */
+      R->verdict = V_PASS; R->nontrivial = 0; R->excluded++;
+    } else if (WIFSIGNALED (st)) {
       char sig[V_SIG_MAX];
       snprintf (sig, sizeof sig, "crash:%s:%s", signame (WTERMSIG (st)), R->stage);
       R->verdict = V_PASS;    // let v_fail record it
